@@ -151,6 +151,21 @@ def injections(rng):
             yield ("einsum-without-config", d, bad, "metrics", None, None)
 
 
+def entry_orders(rule, base, bad, mode, req_bad, req_base):
+    """the same injected specification with the entries of every mapping dictionary in every order (the rules must not depend
+    on the order in which the user wrote the partitioning / loop-order / rank-order entries)"""
+    import itertools
+    yield (rule, base, bad, mode, req_bad, req_base)
+    parts = ((bad.get("mapping") or {}).get("partitioning") or {})
+    for out, entries in parts.items():
+        keys = list(entries.keys())
+        if 2 <= len(keys) <= 3:
+            for perm in list(itertools.permutations(keys))[1:]:
+                b2 = copy.deepcopy(bad)
+                b2["mapping"]["partitioning"][out] = {k: copy.deepcopy(entries[k]) for k in perm}
+                yield (rule + "/entry-order", None, b2, mode, None, None)
+
+
 def run(ctx):
     ctx.rule = ("each legality rule injected into otherwise legal specifications at every position (every tensor and rank position for duplicates, every term position and direction "
                 "for rank sets, every stack position for n-way after occupancy, every key for the flatten rules, every Einsum of the accelerator specifications for the missing config); "
@@ -161,7 +176,7 @@ def run(ctx):
     reqs, metas = [], []
     rounds = 1 if ctx.tier == "quick" else 5
     for _ in range(rounds):
-        for rule, base, bad, mode, req_bad, req_base in injections(rng):
+        for rule, base, bad, mode, req_bad, req_base in (v for inj in injections(rng) for v in entry_orders(*inj)):
             ob, _ = outcome(base, mode) if base is not None else ("compiled", None)
             kind, msg = outcome(bad, mode)
             ctx.case([rule, bad], nontrivial=ob == "compiled")
@@ -173,7 +188,7 @@ def run(ctx):
             if len(ctx.samples) < 5 and rule not in [x["rule"] for x in ctx.samples] and rule.startswith(("terms", "nway", "flatten-also", "shape", "loop")):
                 ctx.sample({"rule": rule, "einsum": bad["einsum"]["expressions"], "mapping": bad.get("mapping"), "outcome": "%s: %s" % (kind, str(msg)[:80])})
             if not ok:
-                case = {"predicates": {rule}, "signature": "compiled" if kind == "compiled" else "raises-" + str(kind)}
+                case = {"predicates": {rule.split("/")[0]}, "signature": "compiled" if kind == "compiled" else "raises-" + str(kind)}
                 f = ctx.match_finding(case)
                 if f:
                     ctx.known(f, f["what"]); continue
